@@ -58,8 +58,11 @@ func runHistory(r *vkit.Run, caseNo int, rg *vkit.Rand, cfg histCfg) {
 	var hist []opSpec
 	kinds := map[string]bool{}
 	overwrites := 0
+	// a cache snapshot whose write failed is retained by the cache until a later snapshot
+	// succeeds (or the shard restarts)
+	failedSnapPending := false
 	fail := func(i int, d string) {
-		r.Violation(cfg.Class, mismatchFeatures(map[string]string{"after_op": hist[i].Kind, "background": fmt.Sprint(bg), "schedule": "sequential"}),
+		r.Violation(cfg.Class, mismatchFeatures(map[string]string{"after_op": hist[i].Kind, "background": fmt.Sprint(bg), "schedule": "sequential", "failed_snapshot_pending": fmt.Sprint(failedSnapPending)}),
 			c01Wit{Case: caseNo, History: opStrings(hist), FailsAt: i, Diff: d, Files: s.TSMFiles()})
 	}
 	for i := 0; i < nops; i++ {
@@ -109,6 +112,7 @@ func runHistory(r *vkit.Run, caseNo int, rg *vkit.Rand, cfg histCfg) {
 			if !bg {
 				if err := s.SnapshotFailing(); err != nil {
 					r.Event("failed_snapshots", 1)
+					failedSnapPending = true
 				}
 			}
 		case "snapshot":
@@ -116,6 +120,7 @@ func runHistory(r *vkit.Run, caseNo int, rg *vkit.Rand, cfg histCfg) {
 				fail(i, "snapshot error: "+err.Error())
 				return
 			}
+			failedSnapPending = false
 		case "level":
 			if !bg {
 				r.Event("level_groups_run", int64(s.CompactLevel(o.Level, o.Fast, o.PPB)))
@@ -143,6 +148,7 @@ func runHistory(r *vkit.Run, caseNo int, rg *vkit.Rand, cfg histCfg) {
 				fail(i, "reopen error: "+err.Error())
 				return
 			}
+			failedSnapPending = false
 		}
 		d, reads, nonEmpty := checkAll(s, m, series, readRanges(rg))
 		r.Event("reads_compared", int64(reads))
